@@ -108,6 +108,8 @@ def obligations(tier):
     o.append(shape(t=1, s=1, nlv=big, enc=8, nd=3, ibw=2, il=0, fork_max=2))
     o.append(shape(t=2, s=1, nlv=(4,), enc=2, nd=4, ibw=2, il=3, fork_max=2))
     o.append(shape(t=3, s=1, nlv=(4,), enc=8, nd=2, ibw=1, il=2))
+    # one-entry dictionary: index bit width 0 (runs without payload bytes; the final run ends exactly at the end of the page)
+    o.append(shape(t=1, s=1, nlv=(4,), enc=8, nd=1, ibw=0, il=0)); o.append(shape(t=2, s=0, nlv=(5,), enc=2, nd=1, ibw=0, il=2)); o.append(shape(t=6, s=1, nlv=(3,), enc=8, nd=1, ibw=0, il=6))
     o.append(shape(t=4, s=1, nlv=(4,), enc=2, nd=3, ibw=3, il=0, fork_max=2))
     o.append(shape(t=5, s=1, nlv=(4,), enc=8, nd=4, ibw=3, il=1, fork_max=2))
     o.append(shape(t=6, s=1, nlv=(3,), enc=8, nd=2, ibw=1, il=0))
